@@ -81,12 +81,20 @@ M_PROBLEM = {"description": "problem", "content": {"application/json": {"schema"
 SITES_M = ["A.id", "B.id", "C.id", "B.sort", "C.sort", "A2.body", "C.body", "A.resp", "B.resp", "B.problem404", "B.problem409", "C.problem404"]
 
 
-def doc_part1m(as_ref, order="ABC"):
+KEY_SPELLINGS = {   # how the keys of the component tables are spelled (the component name regex allows letters, digits, ".", "-", "_")
+    "pascal": lambda n: n,
+    "lower": lambda n: n[0].lower() + n[1:],                       # error, notFound, thingResp: camelCase keys
+    "odd": lambda n: {"IdQuery": "id.query-v1", "Sort": "s", "ThingResp": "200", "ThingBody": "components", "Problem": "not-found_2"}.get(n, n),
+}
+
+
+def doc_part1m(as_ref, order="ABC", keys="pascal"):
     """Several operations using the SAME reusable components; the first operation forces a conflict rename of `id`
     (path + query).  Every use site is independently inline or by reference."""
     comps = {"parameters": {}, "requestBodies": {}, "responses": {}}
 
     def use(site, obj, section, name):
+        name = KEY_SPELLINGS[keys](name)
         if site in as_ref:
             comps[section][name] = copy.deepcopy(obj)
             return {"$ref": f"#/components/{section}/{name}"}
@@ -366,6 +374,10 @@ def cases(tier):
             for order in orders:
                 yield {"labels": ["multi-op"] + [f"ref={x}" for x in subset] + [f"order={order}"],
                        "payload": {"part": "1m", "as_ref": list(subset), "order": order}}
+                if order == "ABC" and (k <= 2 or k == len(SITES_M)):
+                    for keys in ("lower", "odd"):
+                        yield {"labels": ["multi-op"] + [f"ref={x}" for x in subset] + [f"order={order}", f"component-keys={keys}"],
+                               "payload": {"part": "1m", "as_ref": list(subset), "order": order, "keys": keys}}
     # part 2
     for pos in SCHEMA_POS:
         for kind in REF_KINDS:
@@ -407,8 +419,8 @@ def _endpoint_files(tree):
 
 def _part1(p):
     if p["part"] == "1m":
-        a = gen.generate(doc_part1m(set(), p["order"]))
-        b = gen.generate(doc_part1m(set(p["as_ref"]), p["order"]))
+        a = gen.generate(doc_part1m(set(), p["order"], p.get("keys", "pascal")))
+        b = gen.generate(doc_part1m(set(p["as_ref"]), p["order"], p.get("keys", "pascal")))
         sites = sorted({x.split(".")[1].rstrip("0123456789") for x in p["as_ref"]})
         key = "multi-op/" + "+".join(sites)
     else:
